@@ -22,15 +22,34 @@ pub mod trace {
     pub struct Acq {
         /// shuttle task id (usize::MAX outside shuttle)
         pub task: usize,
-        /// address of the mutex
+        /// identity of the mutex: rank of its first acquisition within the execution
         pub lock: usize,
     }
 
     static TRACE: StdMutex<Vec<Acq>> = StdMutex::new(Vec::new());
     static ENABLED: std::sync::atomic::AtomicBool = std::sync::atomic::AtomicBool::new(false);
+    /// Lock identities are handed out in order of first acquisition within an
+    /// execution (addresses are reused by the allocator and differ between
+    /// processes, so they cannot serve as identities).
+    static NEXT_ID: std::sync::atomic::AtomicUsize = std::sync::atomic::AtomicUsize::new(1);
+    static EPOCH: std::sync::atomic::AtomicUsize = std::sync::atomic::AtomicUsize::new(1);
 
     pub fn enable(on: bool) {
+        if on {
+            // new execution: identities start again (old mutexes keep stale ids of an older epoch)
+            NEXT_ID.store(1, std::sync::atomic::Ordering::Relaxed);
+            EPOCH.fetch_add(1, std::sync::atomic::Ordering::Relaxed);
+        }
         ENABLED.store(on, std::sync::atomic::Ordering::Relaxed);
+    }
+    pub(crate) fn enabled() -> bool {
+        ENABLED.load(std::sync::atomic::Ordering::Relaxed)
+    }
+    pub(crate) fn epoch() -> usize {
+        EPOCH.load(std::sync::atomic::Ordering::Relaxed)
+    }
+    pub(crate) fn fresh_id() -> usize {
+        NEXT_ID.fetch_add(1, std::sync::atomic::Ordering::Relaxed)
     }
     pub(crate) fn record(lock: usize) {
         if !ENABLED.load(std::sync::atomic::Ordering::Relaxed) {
@@ -48,20 +67,33 @@ pub mod trace {
 
 /// `std::sync::Mutex` look-alike over `shuttle::sync::Mutex`.
 #[derive(Debug, Default)]
-pub struct Mutex<T: ?Sized>(shuttle::sync::Mutex<T>);
+pub struct Mutex<T: ?Sized> {
+    /// (epoch << 32 | id), 0 = not yet acquired
+    ident: std::sync::atomic::AtomicUsize,
+    inner: shuttle::sync::Mutex<T>,
+}
 
 pub type MutexGuard<'a, T> = shuttle::sync::MutexGuard<'a, T>;
 
 impl<T> Mutex<T> {
     pub const fn new(t: T) -> Self {
-        Mutex(shuttle::sync::Mutex::new(t))
+        Mutex { ident: std::sync::atomic::AtomicUsize::new(0), inner: shuttle::sync::Mutex::new(t) }
     }
 }
 
 impl<T: ?Sized> Mutex<T> {
     pub fn lock(&self) -> LockResult<MutexGuard<'_, T>> {
-        trace::record(std::ptr::from_ref(self).cast::<()>() as usize);
-        self.0.lock()
+        if trace::enabled() {
+            use std::sync::atomic::Ordering::Relaxed;
+            let ep = trace::epoch();
+            let mut v = self.ident.load(Relaxed);
+            if v >> 32 != ep {
+                v = (ep << 32) | trace::fresh_id();
+                self.ident.store(v, Relaxed);
+            }
+            trace::record(v & 0xffff_ffff);
+        }
+        self.inner.lock()
     }
 }
 
